@@ -137,6 +137,8 @@ def pipe(sel: List[int], fs: int) -> bool:
         opts = pj.make_options(phys, frame_size=fs, delimited=P["delimited"], names=P["names"],
                                prefixes=P["prefixes"], datatypes=P["datatypes"],
                                generalized=integ == "generic", rdf_star=integ == "generic")
+        if P.get("empty_graph"):
+            opts._vp_empty_graphs = (P["empty_graph"],)   # rdflib Dataset also holds an EMPTY named graph with a new prefix/name
         ser = pj.gen_serialize if integ == "generic" else pj.rdf_serialize
         par = pj.gen_parse if integ == "generic" else pj.rdf_parse
         try:
